@@ -101,6 +101,17 @@ impl Check for C06 {
     }
 
     fn generate(&self, rng: &mut Rng, idx: usize, _tier: Tier) -> Scn {
+        if idx % 4 == 1 {
+            return Scn {
+                source: native_args_program(rng),
+                step_budget: 3_000_000,
+                depth_limit: 1_000_000,
+                answers_tape: Tape::from_vec(vec![]),
+                case: None,
+                proc_case: None,
+                isolated: false,
+            };
+        }
         let templates = loop_templates();
         if idx % 4 == 0 {
             let (_, src) = &templates[rng.below(templates.len())];
@@ -135,6 +146,16 @@ impl Check for C06 {
         if let Some(c) = &scn.case {
             for t in c.shrink_tree() {
                 out.push(Scn { source: t.source(), case: Some(t), ..scn.clone() });
+            }
+        } else if scn.source.contains("\ntry { __log.push(S(") {
+            // native-argument sweep: drop one call
+            let lines: Vec<&str> = scn.source.lines().collect();
+            for i in 0..lines.len() {
+                if lines[i].starts_with("try { __log.push(S(") {
+                    let mut l = lines.clone();
+                    l.remove(i);
+                    out.push(Scn { source: l.join("\n") + "\n", ..scn.clone() });
+                }
             }
         }
         out
@@ -258,6 +279,78 @@ impl Check for C06 {
     }
 }
 
+// ───────────────────────────── native argument sweep ─────────────────────────────
+
+/// Index-like arguments: every position, count, radix or code-point parameter may receive these.
+const IDX: [&str; 30] = [
+    "0", "1", "-1", "2", "3", "5", "-5", "0.5", "-0.5", "1.5", "NaN", "Infinity", "-Infinity", "2 ** 31", "-(2 ** 31)", "2 ** 31 - 1",
+    "2 ** 32", "2 ** 32 - 1", "2 ** 53", "-(2 ** 53)", "2 ** 63", "-(2 ** 63)", "1e21", "-1e21", "undefined", "null", "\"2\"", "true", "-0", "0x10FFFF + 1",
+];
+/// Size-like arguments (lengths, repeat counts, pad targets): small only; huge sizes are the
+/// allocation cases of the process stratum.
+const SIZE: [&str; 12] = ["0", "1", "2", "5", "17", "64", "-1", "0.5", "NaN", "-Infinity", "undefined", "-(2 ** 31)"];
+const STRS: [&str; 12] = [
+    "\"abc\"", "\"\"", "\"é\"", "\"日本語テキスト\"", "\"a😀b\"", "\"x-y-z\"", "\"  pad  \"", "\"ÀÉÎõü\"", "\"a\\u0301\"", "\"0123456789\"", "\"\\ud800\"", "\"ab\".repeat(9)",
+];
+const ARRS: [&str; 8] = ["[1, 2, 3]", "[]", "[1, [2, [3, [4]]]]", "[\"b\", \"a\", \"é\"]", "[1, , 3]", "[{ v: 1 }, { v: 2 }]", "Array.from(\"日本\")", "[0, -0, NaN, undefined, null]"];
+const NUMS: [&str; 16] = ["0", "-0", "1", "255", "0.5", "-1.5", "NaN", "Infinity", "-Infinity", "2 ** 53", "-(2 ** 53)", "2 ** 63", "-(2 ** 63)", "1e21", "1e-7", "123.456"];
+
+/// Calls of natives with boundary arguments: `@S` string, `@A` array, `@N` number, `@I` index-like,
+/// `@Z` size-like. Every call must end in a value or a catchable error.
+const NATIVE_CALLS: &[&str] = &[
+    "@S.at(@I)", "@S.charAt(@I)", "@S.charCodeAt(@I)", "@S.codePointAt(@I)", "@S.slice(@I, @I)", "@S.substring(@I, @I)", "@S.substr(@I, @I)",
+    "@S.padStart(@Z, @S)", "@S.padEnd(@Z, @S)", "@S.padStart(@Z)", "@S.repeat(@Z)", "@S.indexOf(@S, @I)", "@S.lastIndexOf(@S, @I)", "@S.includes(@S, @I)",
+    "@S.startsWith(@S, @I)", "@S.endsWith(@S, @I)", "@S.split(@S, @I)", "@S.split(\"\", @I)", "@S.normalize(@S)", "@S.normalize(\"NFD\")", "@S.localeCompare(@S)",
+    "@S.trim().trimStart().trimEnd()", "@S.toUpperCase().toLowerCase()", "@S.replace(@S, @S)", "@S.replaceAll(@S, @S)", "@S.replace(/./gu, @S)", "@S.match(/(.)(.)?/)", "@S.search(/.$/)",
+    "@S.concat(@S, @N)", "String.fromCharCode(@I, @I)", "String.fromCodePoint(@I)", "@S[@I]", "@S.length = @I", "[...@S].length", "@S.split(/(?:)/u).length",
+    "@A.at(@I)", "@A.slice(@I, @I)", "@A.splice(@I, @I)", "@A.splice(@I, @I, 9, 8)", "@A.toSpliced(@I, @I)", "@A.fill(7, @I, @I)", "@A.copyWithin(@I, @I, @I)",
+    "@A.indexOf(1, @I)", "@A.lastIndexOf(1, @I)", "@A.includes(1, @I)", "@A.flat(@Z)", "@A.join(@S)", "@A.with(@I, 5)", "@A.concat(@A, @N)", "@A.reverse()",
+    "@A.sort()", "@A.toSorted()", "@A.toReversed()", "((t: any[]) => { t.length = @Z; return t; })(@A)", "((t: any[]) => { t[@Z] = 1; return t.length; })(@A)",
+    "new Array(@Z)", "new Array(@Z).fill(0)", "Array.from({ length: @Z })", "Array(@Z).join(\"-\")", "@A.findLast((x: any) => x === @N)", "@A.keys().next()", "@A.entries().next()",
+    "(@N).toString(@I)", "(@N).toFixed(@I)", "(@N).toPrecision(@I)", "(@N).toExponential(@I)", "(@N).toString()", "parseInt(@S, @I)", "parseFloat(@S)", "Number(@S)",
+    "Number.isInteger(@N)", "Number.isSafeInteger(@N)", "Math.round(@N)", "Math.trunc(@N) % @N", "Math.max(@N, @N) | 0", "(@N) >>> @I", "(@N) << @I", "(@N) ** @N", "Math.hypot(@N, @N)",
+    "Math.clz32 ? Math.clz32(@N) : 0", "Math.sign(@N)", "Math.cbrt(@N)", "Math.atan2(@N, @N)",
+    "new Date(@N).toISOString()", "new Date(@N).getTime()", "new Date(@N).toString().length", "new Date(@N).toJSON()", "new Date(@N, @I).getMonth()", "new Date(2020, @I, @I).getDate()",
+    "Date.UTC(@N, @I, @I)", "new Date(0).setMonth(@I)", "new Date(0).setFullYear(@N)", "new Date(0).setHours(@N, @N)", "new Date(0).setDate(@N)", "new Date(@S).getTime()",
+    "JSON.stringify(@A, null, @I)", "JSON.stringify({ a: @N, b: @S }, null, @S)", "JSON.parse(@S)", "JSON.parse(JSON.stringify(@S))", "JSON.stringify(@N)",
+    "new RegExp(@S)", "new RegExp(@S, @S)", "((r: RegExp) => { r.lastIndex = @I; return r.exec(@S); })(/./g)", "((r: RegExp) => { r.lastIndex = @I; return r.test(@S); })(/é/y)",
+    "/(a)|(b)/.exec(@S)", "@S.matchAll(/./g).next()", "Object.keys(@S)", "Object.entries(@A)", "Object.fromEntries([[@S, @N]])", "Object.defineProperty({}, @S, { value: @N, enumerable: true })",
+    "new Map([[@N, @S]]).get(@N)", "new Set(@A).has(@N)", "structuredClone(@A)", "Symbol(@S).toString()", "Symbol.for(@S).description", "[@N, @N].sort((a: number, b: number) => a - b)",
+    "`${@N}|${@S}|${@A}`", "@S + @N + @A", "(@N) + (@N)", "@S < @S", "encodeURIComponent ? encodeURIComponent(@S) : 0", "@S.codePointAt(@I)?.toString(16)",
+    "Number.parseFloat(@S).toFixed(2)", "(@N).toLocaleString()", "String(@A)", "isNaN(@S as any)", "Array.isArray(@A.flat(@Z))", "@A.map(String).join().length",
+];
+
+/// A program of 8..24 such calls, each wrapped so that a thrown error is caught by the script.
+pub fn native_args_program(rng: &mut Rng) -> String {
+    let n = 8 + rng.below(17);
+    let mut s = String::from("const __log: string[] = [];\nconst S = (v: any): string => { try { return typeof v === \"object\" && v !== null ? String(JSON.stringify(v)).slice(0, 80) : String(v).slice(0, 80); } catch (e: any) { return \"unprintable\"; } };\n");
+    for _ in 0..n {
+        let t = NATIVE_CALLS[rng.below(NATIVE_CALLS.len())];
+        let mut call = String::new();
+        let mut rest = t;
+        while let Some(i) = rest.find('@') {
+            call.push_str(&rest[..i]);
+            let kind = rest.as_bytes().get(i + 1).copied().unwrap_or(b' ');
+            let pick = match kind {
+                b'S' => STRS[rng.below(STRS.len())],
+                b'A' => ARRS[rng.below(ARRS.len())],
+                b'N' => NUMS[rng.below(NUMS.len())],
+                b'I' => IDX[rng.below(IDX.len())],
+                b'Z' => SIZE[rng.below(SIZE.len())],
+                _ => "0",
+            };
+            call.push('(');
+            call.push_str(pick);
+            call.push(')');
+            rest = &rest[(i + 2).min(rest.len())..];
+        }
+        call.push_str(rest);
+        s.push_str(&format!("try {{ __log.push(S({})); }} catch (e: any) {{ __log.push(\"E:\" + String(e && e.name)); }}\n", call));
+    }
+    s.push_str("__log.join(\"|\")\n");
+    s
+}
+
 // ───────────────────────────── process stratum ─────────────────────────────
 
 pub fn alloc_templates() -> Vec<(&'static str, &'static str)> {
@@ -293,6 +386,21 @@ pub fn recursion_templates() -> Vec<(&'static str, &'static str)> {
         ("rec-super-method", "class P { m(n: number): number { return n <= 0 ? 0 : 1; } } class Q extends P { m(n: number): number { return n <= 0 ? super.m(n) : 1 + this.m(n - 1); } } new Q().m(N)"),
         ("rec-derived-ctor", "class R { constructor(n: number) {} } class S extends R { d: number; constructor(n: number) { super(n); this.d = n <= 0 ? 0 : 1 + new S(n - 1).d; } } new S(N).d"),
         ("rec-async", "async function ar(n: number): Promise<number> { return n <= 0 ? 0 : 1 + (await ar(n - 1)); } await ar(N)"),
+        // recursion over data: graphs N deep handed to natives that walk them
+        ("data-json-stringify-array", "let a: any = 0; for (let i = 0; i < N; i++) { a = [a]; } JSON.stringify(a).length"),
+        ("data-json-stringify-object", "let o: any = 0; for (let i = 0; i < N; i++) { o = { c: o }; } JSON.stringify(o).length"),
+        ("data-json-parse", "const t: string = '['.repeat(N) + ']'.repeat(N); Array.isArray(JSON.parse(t))"),
+        ("data-flat-infinity", "let a: any = [1]; for (let i = 0; i < N; i++) { a = [a]; } a.flat(Infinity).length"),
+        ("data-structured-clone", "let a: any = [1]; for (let i = 0; i < N; i++) { a = [a]; } Array.isArray(structuredClone(a))"),
+        ("data-array-tostring", "let a: any = [1]; for (let i = 0; i < N; i++) { a = [a]; } String(a).length"),
+        ("data-cyclic-flat", "const a: any[] = [N]; a.push(a); a.flat(Infinity).length"),
+        ("data-cyclic-join", "const a: any[] = [N]; a.push(a); a.join().length"),
+        ("data-cyclic-json", "const a: any[] = [N]; a.push(a); let r = 'ok'; try { JSON.stringify(a); } catch (e: any) { r = 'caught'; } r"),
+        ("data-gc-deep-list", "let o: any = null; for (let i = 0; i < N; i++) { o = { next: o }; } const junk: any[] = []; for (let i = 0; i < 3000; i++) { junk.push({ i: i }); } o === null ? 0 : 1"),
+        ("data-deep-proto-chain", "let o: any = { base: 1 }; for (let i = 0; i < N; i++) { o = Object.create(o); } o.base"),
+        ("data-deep-equal-spread", "let o: any = 0; for (let i = 0; i < N; i++) { o = { ...{ c: o } }; } typeof o"),
+        ("data-regexp-nesting", "const r: RegExp = new RegExp('('.repeat(N) + 'a' + ')'.repeat(N)); r.test('a')"),
+        ("data-regexp-backtracking", "/^(a+)+$/.test('a'.repeat(N > 28 ? 28 : N) + 'b')"),
     ]
 }
 
@@ -314,6 +422,13 @@ pub fn all_proc_cases() -> Vec<ProcCase> {
             }
         }
     }
+    for name in source_templates() {
+        for d in REC_DEPTHS {
+            for s in STACKS_KB {
+                v.push(ProcCase { template: name.to_string(), param: d, stack_kb: s });
+            }
+        }
+    }
     v
 }
 
@@ -321,12 +436,59 @@ pub fn case_key(c: &ProcCase) -> String {
     format!("{}:{}:{}KiB", c.template, c.param, c.stack_kb)
 }
 
+/// Replace the stand-alone identifier `N` (not the letter inside other words such as JSON).
+fn subst_n(src: &str, param: u64) -> String {
+    let b = src.as_bytes();
+    let is_word = |c: u8| c.is_ascii_alphanumeric() || c == b'_' || c == b'$';
+    let mut out = String::with_capacity(src.len() + 16);
+    let mut i = 0;
+    while i < b.len() {
+        let c = b[i];
+        if c == b'N' && (i == 0 || !is_word(b[i - 1])) && (i + 1 >= b.len() || !is_word(b[i + 1])) {
+            out.push_str(&param.to_string());
+            i += 1;
+        } else {
+            // templates are ASCII
+            out.push(c as char);
+            i += 1;
+        }
+    }
+    out
+}
+
+/// Programs whose *text* is nested N deep (parser and compiler recursion).
+pub fn source_templates() -> Vec<&'static str> {
+    vec!["src-parens", "src-arrays", "src-blocks", "src-binary-right", "src-binary-left", "src-unary", "src-member-chain", "src-ternary", "src-object-literal", "src-arrow-chain", "src-if-else-chain", "src-call-chain"]
+}
+
+fn nested_source(name: &str, n: usize) -> Option<String> {
+    let n = n.min(200_000);
+    Some(match name {
+        "src-parens" => format!("{}1{}", "(".repeat(n), ")".repeat(n)),
+        "src-arrays" => format!("{}{}.length", "[".repeat(n), "]".repeat(n)),
+        "src-blocks" => format!("{}let q = 1;{} 1", "{".repeat(n), "}".repeat(n)),
+        "src-binary-right" => format!("{}1{}", "1 + (".repeat(n), ")".repeat(n)),
+        "src-binary-left" => format!("1{}", " + 1".repeat(n)),
+        "src-unary" => format!("{}1", "- ".repeat(n)),
+        "src-member-chain" => format!("const o: any = {{}}; o{}", "?.a".repeat(n)),
+        "src-ternary" => format!("{}0", "1 ? 2 : ".repeat(n)),
+        "src-object-literal" => format!("const o: any = {}1{}; 1", "{ a: ".repeat(n), " }".repeat(n)),
+        "src-arrow-chain" => format!("const f: any = {}1; typeof f", "() => ".repeat(n)),
+        "src-if-else-chain" => format!("let q = 0; {}{{ q = 2; }} q", "if (q === 1) { q = 1; } else ".repeat(n)),
+        "src-call-chain" => format!("const id = (x: any): any => x; {}1{}", "id(".repeat(n), ")".repeat(n)),
+        _ => return None,
+    })
+}
+
 fn template_source(name: &str, param: u64) -> Option<String> {
+    if name.starts_with("src-") {
+        return nested_source(name, param as usize);
+    }
     alloc_templates()
         .into_iter()
         .chain(recursion_templates())
         .find(|(n, _)| *n == name)
-        .map(|(_, src)| src.replace('N', &param.to_string()))
+        .map(|(_, src)| subst_n(src, param))
 }
 
 /// Worker side: run one template in a thread with the given stack; print RESULT line.
@@ -439,15 +601,32 @@ pub fn process_stratum(
     let mut tally: std::collections::BTreeMap<String, u64> = Default::default();
     let mut no_longer: Vec<String> = Vec::new();
     let mut all_died: Vec<String> = Vec::new();
+    let mut frontier_shift: Vec<String> = Vec::new();
     for (c, r) in cases.iter().zip(results.iter()) {
         let r = r.clone().unwrap_or_else(|| "HARNESS missing".into());
         let class = r.split(' ').next().unwrap_or("?").to_string();
         *tally.entry(class).or_insert(0) += 1;
         let key = case_key(c);
+        // a recursion case is the same known finding when the listed frontier is at most one
+        // decade deeper on a stack at least as large, or when a shallower case of the template is
+        // listed (a bigger stack only postpones the overflow; whether a deep case on a big stack
+        // dies or first runs into the 8 s CPU limit depends on the load of the machine): where
+        // exactly the native stack runs out depends on the build, not on the defect
+        let near_listed_frontier = c.stack_kb != 8192 || c.template.starts_with("rec-") || c.template.starts_with("data-") || c.template.starts_with("src-");
+        let tolerated = near_listed_frontier
+            && known.iter().any(|k| {
+                let mut it = k.split(':');
+                let (t, d, st) = (it.next().unwrap_or(""), it.next().and_then(|x| x.parse::<u64>().ok()).unwrap_or(0), it.next().unwrap_or("").trim_end_matches("KiB").parse::<u64>().unwrap_or(0));
+                t == c.template && !alloc_templates().iter().any(|(n, _)| *n == t) && ((d <= c.param.saturating_mul(10) && st >= c.stack_kb) || d <= c.param)
+            });
         if r.starts_with("DIED") {
             all_died.push(format!("{} {}", key, r.chars().take(90).collect::<String>()));
             if known.contains(&key) {
                 died_known.push(key);
+            } else if tolerated {
+                frontier_shift.push(key.clone());
+                let listed = known.iter().find(|k| k.starts_with(&format!("{}:", c.template))).cloned().unwrap_or_default();
+                died_known.push(listed);
             } else if fails.len() < 4 {
                 fails.push((
                     Failure::new("worker_process_died", format!("{} -> {}", key, r), json!({"case": c, "result": r})),
@@ -469,7 +648,7 @@ pub fn process_stratum(
     }
     cov.insert(
         "process_stratum".into(),
-        json!({"cases": cases.len(), "outcome_classes": tally, "died_and_listed_as_known": died_known.len(), "listed_but_survived_now": no_longer, "died_cases": all_died,
+        json!({"cases": cases.len(), "outcome_classes": tally, "died_and_listed_as_known": died_known.len(), "listed_but_survived_now": no_longer, "died_one_decade_before_the_listed_frontier": frontier_shift, "died_cases": all_died,
                "address_space_cap_kib": 4194304, "stacks_kib": STACKS_KB, "sizes": ALLOC_SIZES, "depths": REC_DEPTHS}),
     );
     fails
